@@ -1148,8 +1148,37 @@ def m_list_pop(eng, st, recv, args, kwargs):
     return ok(st, v)
 
 
+def _seq_of_listlike(eng, st, v, elem=None):
+    """z3 sequence term + element type of a list value (concrete list, symbolic list or VSeq)."""
+    o = heap_obj(st, v)
+    if o is not None and o.kind == "slist":
+        return o.f["e"], o.f["elem"]
+    if isinstance(v, VSeq):
+        return v.e, v.elem
+    items = eng.iter_concrete(v, st)
+    if elem is None:
+        raise Unsupported("element type of a concrete list is needed to make it symbolic")
+    units = [z3.Unit(encode_elem(eng, st, eng.devalue(x, st), elem)) for x in items]
+    srt = z3.SeqSort(elem_sort(eng, elem))
+    return (z3.Empty(srt) if not units else (units[0] if len(units) == 1 else z3.Concat(*units))), elem
+
+
 def m_list_extend(eng, st, recv, args, kwargs):
+    oo = heap_obj(st, args[0])
+    if (oo is not None and oo.kind == "slist") or isinstance(args[0], VSeq):
+        # a concrete list extended by a symbolic-length one becomes a symbolic-length list (same object)
+        e2, elem = _seq_of_listlike(eng, st, args[0])
+        e1, _ = _seq_of_listlike(eng, st, recv, elem)
+        st.heap[recv.oid] = HObj("slist", None, {"e": simp(z3.Concat(e1, e2)), "elem": elem})
+        return ok(st, VNone)
     st.heap[recv.oid].f["items"] = st.heap[recv.oid].f["items"] + eng.iter_concrete(args[0], st)
+    return ok(st, VNone)
+
+
+def m_slist_extend(eng, st, recv, args, kwargs):
+    o = st.heap[recv.oid]
+    e2, _ = _seq_of_listlike(eng, st, args[0], o.f["elem"])
+    o.f["e"] = simp(z3.Concat(o.f["e"], e2))
     return ok(st, VNone)
 
 
@@ -1308,7 +1337,7 @@ def m_slist_pop(eng, st, recv, args, kwargs):
     return out
 
 
-SLIST_METHODS = {"append": m_slist_append, "pop": m_slist_pop}
+SLIST_METHODS = {"append": m_slist_append, "pop": m_slist_pop, "extend": m_slist_extend}
 
 
 def m_sset_add(eng, st, recv, args, kwargs):
